@@ -326,7 +326,7 @@ func (r *rlpReader) ReadBytes() ([]byte, error) {
 }
 
 func (r *rlpReader) readMore(org []byte, size int) ([]byte, error) {
-	if size+len(org) > r.maxSB {
+	if size < 0 || size > r.maxSB-len(org) {
 		return nil, cerrors.Wrapf(ErrInvalidFormat, "IllegalFormat(%d>%d)", size+len(org), r.maxSB)
 	}
 	buffer := make([]byte, len(org)+size)
